@@ -6,7 +6,7 @@
    from the current one at the PENDING properties (existentially, per tree); each walk marks every evaluator-driven leaf that reads
    its property (link invariant: every such leaf is subscribed there), after which the property is no longer pending. *)
 From KDB Require Import Util UtilProofs PropDefs PropFlags PropLink PropLinkBasics PropLinkOps PropLinkTheorems PropSim.
-From KDB Require PropAbs PropAbsProofs PropAbsLazy PropProofs PropReg PropGrow PropSimLazy PropGrowMore.
+From KDB Require PropAbs PropAbsProofs PropAbsLazy PropProofs PropReg PropGrow PropSimLazy PropGrowMore PropGrowLazyMore.
 Module A := PropAbs.
 Module AP := PropAbsProofs.
 Module L := PropAbsLazy.
@@ -727,15 +727,45 @@ Section MixedLazy.
     - intros t pos ser label act Hs. apply (Hna t pos ser label act). apply Sl. exact Hs.
   Qed.
 
+  (* ~Property of a property that no live binding reads (bound or not, observed or not) *)
+  Lemma ML_del fuel w p w' :
+    ML w -> (forall b lf, has_leaf w b lf -> lf_tg lf <> Some p) ->
+    step1 fn rtl fuel w (PDel p) = (w', None) -> LSIMP w' /\ MS w' /\ NOACT w'.
+  Proof.
+    intros HML Hnr H. pose proof HML as (Hinv & Hna & HS & HM).
+    destruct (PropGrowMore.del_shape fn rtl fuel w p w' Hinv Hna Hnr H) as (pr & Hp & Pw & Gw & Sw & _ & Hevs).
+    (* every binding of w' is a binding of w *)
+    assert (Gsub : forall c x, get_bind w' c = Some x -> get_bind w c = Some x).
+    { intros c x Hx. destruct (pr_updater pr) as [bp|] eqn:Hu.
+      - destruct (Nat.eq_dec c bp) as [->|Hne]; [|rewrite Gw in Hx by congruence; exact Hx]. exfalso.
+        destruct Hevs as (w1 & _ & G1 & _ & Gb).
+        assert (Pq : pview w p = Some (psigs_of pr)) by (unfold pview; rewrite Hp; reflexivity).
+        destruct (pi_upd _ _ _ _ _ _ _ Hinv _ _ _ Pq Hu (fun z => z)) as (lsb & Ebw).
+        destruct (get_bind w bp) as [xb|] eqn:Hxb; [|unfold bview in Ebw; rewrite Hxb in Ebw; discriminate Ebw].
+        destruct (destroy_binding w1 bp) as [w2 e2] eqn:Hd. cbn [fst] in Gb.
+        destruct (PropGrowLazyMore.destroy_shape w1 bp xb w2 e2 G1 Hd) as (_ & _ & Gn). rewrite Gb, Gn in Hx. discriminate Hx.
+      - rewrite Gw in Hx by discriminate. exact Hx. }
+    split; [|split].
+    - intros c x Hx He. exact (HS c x (Gsub c x Hx) He).
+    - intros c T (x & Hx & He & Ha). pose proof (Gsub c x Hx) as Hx0.
+      apply (sound_leaves_ext (envof w') (envof w)); [|apply (HM c T); exists x; auto].
+      intros y lid Hi. destruct (PropSim.abs_leaf_in (b_root x) T y lid Ha Hi) as (lf & Hlf & Htg & _).
+      assert (Hne : y <> p).
+      { intros ->. apply (Hnr c lf); [|exact Htg]. exists (leaves (b_root x)), (b_target x). split; [unfold bview; rewrite Hx0; reflexivity|exact Hlf]. }
+      unfold envof. rewrite Pw, lookup_remove_other by exact Hne. reflexivity.
+    - intros t pos ser label act Hs. exact (Hna t pos ser label act (Sw t pos ser _ Hs)).
+  Qed.
+
   (* ---- histories: new properties, assignments, reads, plain observers, evaluator objects, fresh properties bound immediately or
      through an explicit evaluator, evaluateAll of explicit evaluators, reset() ---- *)
   Definition grow_op5 (w : world) (o : op) : Prop :=
     match o with
-    | PNew _ _ | PSet _ _ _ | PGet _ | PHasBinding _ | BevNew _ | BevCopy _ _ | PReset _ => True
+    | PNew _ _ | PSet _ _ _ | PGet _ | PHasBinding _ | BevNew _ | BevCopy _ _ | PReset _ | PAssignFrom _ _ | PUnobserve _ => True
     | PObserve _ _ _ _ None => True
     | PBind p _ m => lookup (w_props w) p = None /\
                      match m with MImmediate => True | MEvaluator e0 => exists id, lookup (w_bevs w) e0 = Some id /\ id <> 0 end
     | BevEvalAll e0 => exists id, lookup (w_bevs w) e0 = Some id /\ id <> 0
+    | PDel p => PropGrowMore.no_reader_b w p = true      (* destruction of a property no live binding reads *)
     | _ => False
     end.
 
@@ -751,12 +781,23 @@ Section MixedLazy.
       unfold tview, get_table in *. rewrite <- Tt. exact Hv. }
     destruct o; cbn [grow_op5] in Ho; try contradiction.
     - (* PNew *) cbn [step1] in H. destruct (lookup (w_props w) p) eqn:Hp; [discriminate H|]. inversion H; subst w'. apply ML_new_prop; assumption.
+    - (* PDel *) destruct (ML_del fuel w p w' HML (PropGrowMore.no_reader_sound w p Ho) H) as (A1 & A2 & A3). split; [exact Hinv'|]. split; [exact A3|]. split; assumption.
     - (* PSet *) cbn [step1] in H. destruct (lookup (w_props w) p) as [pr|]; [|discriminate H]. destruct (pr_updater pr); [discriminate H|].
       destruct (mixed_set_helper_keeps_sound fuel w p v w' Hinv Hna HS HM H) as (A1 & A2 & A3 & A4 & _). split; [exact A1|]. split; [exact A2|]. split; assumption.
     - (* PGet *) cbn [step1] in H. destruct (lookup (w_props w) p); [|discriminate H]. inversion H; subst w'. apply Same; reflexivity.
     - (* PHasBinding *) cbn [step1] in H. destruct (lookup (w_props w) p); [|discriminate H]. inversion H; subst w'. apply Same; reflexivity.
     - (* PObserve *) destruct act; [contradiction|]. destruct (ML_observe fuel w p k label h w' HML H) as (A1 & A2 & A3).
       split; [exact Hinv'|]. split; [exact A3|]. split; assumption.
+    - (* PUnobserve *) cbn [step1] in H. destruct (lookup (w_obs w) h) as [hd|]; [|discriminate H].
+      destruct (unsubscribe_cases w hd w' None H (pi_dead _ _ _ _ _ _ _ Hinv)) as [[_ E]|[(-> & _)|(_ & s0 & E)]]; [discriminate E|exact HML|].
+      destruct (ML_lazy_same w w' HML) as (A1 & A2).
+      { intros b. unfold get_bind. rewrite (re_binds _ _ _ _ _ _ E). reflexivity. }
+      { intros y _. unfold envof. rewrite (re_props _ _ _ _ _ _ E). reflexivity. }
+      split; [exact Hinv'|]. split; [|split; assumption].
+      intros t pos ser label act Hs. apply (Hna t pos ser label act). exact (proj1 (proj1 (re_sub _ _ _ _ _ _ E t pos ser _) Hs)).
+    - (* PAssignFrom *) cbn [step1] in H. destruct (lookup (w_props w) p) as [pr|]; [|discriminate H]. destruct (lookup (w_props w) q) as [qr|]; [|discriminate H].
+      destruct (pr_updater pr); [discriminate H|].
+      destruct (mixed_set_helper_keeps_sound fuel w p (pr_value qr) w' Hinv Hna HS HM H) as (A1 & A2 & A3 & A4 & _). split; [exact A1|]. split; [exact A2|]. split; assumption.
     - (* PBind *) destruct Ho as (Hp & Hmode). destruct (ML_bind_fresh fuel w p e m w' HML HNE Hp Hmode H) as (A1 & A2 & A3).
       split; [exact Hinv'|]. split; [exact A3|]. split; assumption.
     - (* PReset *) destruct (ML_reset fuel w p w' HML H) as (A1 & A2 & A3). split; [exact Hinv'|]. split; [exact A3|]. split; assumption.
